@@ -127,11 +127,30 @@ def run(chk):
                          "explanation": "LoadFile does not expose the same control data, member index and payload listing as Load on the same bytes"})
     for (b, info), r in zip(big, fref[len(fcases) - len(big):]):
         check_loaded(chk, ("debload", [b]), r, info)
+    # two packages open at the same time: each exposes its own control data and payload (codec state is per package)
+    pairs = []
+    for enc in debpkg.ENCODINGS:
+        a, _ = debpkg.build(chk, rng, rng.choice(debpkg.ENCODINGS), enc)
+        b, _ = debpkg.build(chk, rng, rng.choice(debpkg.ENCODINGS), enc)
+        pairs.append((a, b))
+    for _ in range(chk.n(6, 60)):
+        pairs.append((rng.choice(bufs), rng.choice(bufs)))
+    pc = [("debload2", [a, b]) for a, b in pairs]
+    pi = chk.run_impl(pc)
+    single = dict(zip(bufs, impl))
+    need = [x for ab in pairs for x in ab if x not in single]
+    single.update(zip(need, chk.run_impl([("debload", [x]) for x in need])))
+    chk.record("two-packages-open", pc, pi)
+    for c, r, (a, b) in zip(pc, pi, pairs):
+        w = single[a] + " ## " + single[b]
+        if r != w:
+            chk.violate({"kind": "property", "case": lib.show_case(("debload2", [b"<%d bytes>" % len(a), b"<%d bytes>" % len(b)])), "impl": r[:900], "expected": w[:900],
+                         "explanation": "with two packages loaded at the same time, a package does not expose its own control data and payload"})
     # rejections: wrong format version, missing members
     bad = []
     base, info = debpkg.build(chk, rng, ".gz", ".xz")
     ms = info["ms"]
-    for binary in (b"3.0\n", b"1.0\n", b"2.0", b"", b"2.1\n", b"02.0\n", b" 2.0\n"):
+    for binary in (b"3.0\n", b"1.0\n", b"2.0", b"", b"2.1\n", b"02.0\n", b" 2.0\n", b"\n", b"\n2.0\n", b"\n\n", b"2", b"2.", b"2\n", b"2.\n", b"\r\n"):
         bad.append((argen.render([debpkg.member(b"debian-binary", binary)] + ms[1:]), "format version %r" % binary))
     bad.append((argen.render(ms[1:]), "no debian-binary"))
     bad.append((argen.render([ms[0], ms[2]]), "no control member"))
@@ -146,7 +165,7 @@ def run(chk):
     chk.compare("malformed-packages", [("debload", [b] + t) for b, t in zip(bbufs, tables)], bi, bm, nontrivial=lambda c, r: True)
     for (b, why), i in zip(bad, bi):
         # "2.1\n" has major version 2: the property does not demand its rejection, so it is compared with the model only
-        if i != "err" and why != "format version %r" % b"2.1\n":
+        if i != "err" and why not in ("format version %r" % b"2.1\n", "format version %r" % b"2.\n"):
             chk.violate({"kind": "property", "case": lib.show_case(("debload", [b"<%d bytes>" % len(b)])), "impl": i[:300],
                          "explanation": "a package that must be rejected (%s) was loaded" % why})
     # the same bytes always give the same result
@@ -203,6 +222,10 @@ def hostile_debs(chk):
         for off in offs:
             for text in (b"-60", b"-1", b"9999999999", b"", b"x"):
                 b = bytearray(base); b[off + 48:off + 58] = argen.col(text, 10); bufs.append(bytes(b))
+        # every short content of the debian-binary member (empty, one byte, no newline, newline first, ...)
+        for binary in [b"", b"\n", b"2", b"2.", b"2\n", b"2.\n", b"\n2.0\n", b"\n\n", b"\r\n", b"2.0", b"2.0\r\n", b"\x00", b"2.0\n\x00"] + \
+                [bytes([c]) for c in b"0123. \t"]:
+            bufs.append(argen.render([debpkg.member(b"debian-binary", binary)] + info["ms"][1:]))
     cases = [("debload", [b]) for b in bufs]
     first = chk.run_impl(cases)
     tables, _ = oracle_args(chk, bufs)
